@@ -214,6 +214,12 @@ func histOracle(op M, res any, exec func(M) any) []Finding {
 		for ri := range cur {
 			if !reported && ri != written && ri < len(prev) && !Equal(prev[ri], cur[ri]) {
 				props := []string{"C12", "C11"}
+				switch asStr(step["i"]) {
+				case "nodeGraph", "nodeSiblings", "nodeDescendants", "purlType":
+					// an extraction that rewrites the list it walks: what later extractions return is no
+					// longer the reachable set of the list the caller holds
+					props = append(props, "C15")
+				}
 				switch producer[ri] {
 				case "union":
 					props = append(props, "C09")
@@ -253,6 +259,6 @@ var HistStream = &Stream{
 		}
 		return len(kinds) >= 2
 	},
-	OpProps: func(M) []string { return []string{"C08", "C09", "C10", "C12"} },
+	OpProps: func(M) []string { return []string{"C08", "C09", "C10", "C12", "C15"} },
 	Reps:    2,
 }
